@@ -132,6 +132,9 @@ def admin_menu(b, e):
         ('balance_masters', lambda: b.call('balance_masters', S('c1'))),
         ('change_config', lambda: b.call('change_config', S('c1'), strmap({'compression_strategy': 'set_get_only'}))),
         ('change_config(noop value)', lambda: b.call('change_config', S('c1'), strmap({'compression_strategy': 'disabled'}))),
+        ('change_config(valid key then rejected key)', lambda: b.call('change_config', S('c1'), strmap({'migration_scan_interval': '3000', 'migration_scan_count': '0'}))),
+        ('change_config(rejected key then valid key)', lambda: b.call('change_config', S('c1'), strmap({'migration_scan_count': '0', 'compression_strategy': 'allow_all'}))),
+        ('change_config(unknown key)', lambda: b.call('change_config', S('c1'), strmap({'compression_strategy': 'set_get_only', 'no_such_field': '1'}))),
         ('auto_add_nodes', lambda: b.call('auto_add_nodes', S('c1'), 4)),
         ('auto_scale_up_nodes', lambda: b.call('auto_scale_up_nodes', S('c1'), 8)),
         ('auto_delete_free_nodes', lambda: b.call('auto_delete_free_nodes', S('c1'))),
@@ -153,12 +156,12 @@ def admin_scenario(ctx, job, oracles):
     def run(e):
         b = Broker(e); b.new_store()
         b.add_proxies(job.get('layout', [3, 3]))
-        r = b.add_cluster(4, 'c1'); assert r.variant == 0, r
+        r = b.add_cluster(4 * job.get('chunks', 1), 'c1'); assert r.variant == 0, r
         if job.get('second'):
             r = b.add_cluster(4, 'c2'); assert r.variant == 0, r
         b.cluster = 'c1'
         b.symbolise_epochs()
-        b.symbolise_stable(job.get('shape', [0, 1]))
+        b.symbolise_stable(job.get('shape', list(range(2 * job.get('chunks', 1)))))
         if job.get('roles'): b.symbolise_roles()
         b.mark_initial()
         h = History(b, ctx, e, limits, oracles)
@@ -174,7 +177,7 @@ def admin_scenario(ctx, job, oracles):
             h.step(nm, th)
             if b.cluster_store('c1') is None: break
         return h.ops
-    name = 'admin depth=%d second=%s first=%s' % (job['depth'], job.get('second'), job.get('first'))
+    name = 'admin depth=%d second=%s first=%s chunks=%d roles=%s' % (job['depth'], job.get('second'), job.get('first'), job.get('chunks', 1), job.get('roles'))
     res = ctx.explore(name, run, time_limit=job.get('time_limit'))
     ctx.ops += sum(p.value or 0 for p in res if p.kind == 'ok')
     ctx.sample({'scenario': name, 'paths': len(res)})
